@@ -249,6 +249,8 @@ impl Cqueue {
     /// if any panic in select coroutine detected during the poll
     /// it will propagate the panic to the caller
     pub fn poll(&self, timeout: Option<Duration>) -> Result<Event, PollError> {
+        #[cfg(may_verif)]
+        use crate::verif::VInstant as Instant;
         macro_rules! run_ev {
             ($ev:ident) => {{
                 if $ev.kind == EventKind::Done {
